@@ -174,6 +174,35 @@ def run(chk):
                 if not ok:
                     chk.fail("fit(a*x+b) == (a*loc+b, a*scale[, shape]) for method %s" % name, dict(info, a=a, b=b, method=name),
                              [float(v) for v in exp], [float(v) for v in q], method=name)
+        # the estimate depends on the sample values only: an array modified in place and passed again
+        for name, f, k in methods[kind]:
+            buf = np.array(x, dtype=float)
+            try:
+                with np.errstate(all="ignore"):
+                    _ = f(buf)
+                    buf *= 2.0
+                    buf += 1.0
+                    again, fresh = f(buf), f(np.array(buf))
+            except Exception:
+                continue
+            chk.count("inplace." + kind + "." + name)
+            if all(np.isfinite(fresh)) and not all(close(float(a), float(b), 1e-9) for a, b in zip(again, fresh)):
+                chk.fail("the fit of a sample does not depend on earlier calls (same array object modified in place and fitted again)",
+                         dict(info, method=name, a=2.0, b=1.0), [float(v) for v in fresh], [float(v) for v in again], method=name)
+        # samples with exact ties (finite-resolution data): minima still mirror maxima
+        if kind in ("gu", "gm"):
+            xq = np.round(x * 2.0) / 2.0
+            if np.unique(xq).size < xq.size and np.unique(xq).size > 3:
+                for name in ("msm", "lse", "mle"):
+                    chk.count("mirror-ties." + name)
+                    try:
+                        mx, mn = getattr(gumbel, name)(-xq), getattr(gumbelmin, name)(xq)
+                    except Exception:
+                        continue
+                    tol = 1e-9 if name == "msm" else 5e-4
+                    if not (abs(mn[0] + mx[0]) <= tol * (abs(mx[0]) + abs(mx[1])) and abs(mn[1] - mx[1]) <= tol * abs(mx[1])):
+                        chk.fail("GumbelMin fit of x is the mirror of the Gumbel fit of -x (%s, sample with repeated values)" % name,
+                                 dict(info, method=name, quantised=0.5), [-float(mx[0]), float(mx[1])], [float(mn[0]), float(mn[1])], method=name)
         # two-parameter Weibull: scale equivariance only
         if kind == "wb" and np.all(x > 0):
             p, q = weibull.pwm2(x), weibull.pwm2(a * x)
